@@ -91,6 +91,12 @@ ObsClauses(e) ==
        /\ Flag(e, "C03.ConservationCpu", p.acpu + ObsSumCpu(p) = cfg.cpucap, <<k, p.acpu, ObsSumCpu(p)>>)
        /\ Flag(e, "C03.ConservationRam", EqQ(p.aram + ObsSumRam(p), p.aramr + ObsSumRamR(p), cfg.ramcap, cfg.ramcapr),
                <<k, p.aram, ObsSumRam(p)>>)
+       \* C10: a suspending container keeps its whole allocation, and exactly that allocation is freed when the write-out ends:
+       \* while a write-out is in progress in this pool, or in the tick one finishes, the pool's books must balance
+       /\ Flag(e, "C10.AllocationKeptThenFreedOnce",
+               (Len(p.suspending) > 0 \/ (k <= Len(s.pools) /\ Len(p.suspended) > Len(s.pools[k].suspended))) =>
+                  (p.acpu + ObsSumCpu(p) = cfg.cpucap /\ EqQ(p.aram + ObsSumRam(p), p.aramr + ObsSumRamR(p), cfg.ramcap, cfg.ramcapr)),
+               <<k, "free", p.acpu, p.aram, "allocated to running and suspending", ObsSumCpu(p), ObsSumRam(p)>>)
        /\ Flag(e, "C03.NonNegative", p.acpu >= 0 /\ (~cfg.oc => LeQ(0, 0, p.aram, p.aramr)), <<k, p.acpu, p.aram>>)
        /\ Flag(e, "C04.WithinAlloc", \A j \in 1..Len(p.active) :
                   LeQ(p.active[j].mem, p.active[j].memr, p.active[j].ram, p.active[j].ramr), k)
